@@ -117,11 +117,6 @@ Definition bulk_2d {M} (s : spec2d M) fmin fmax : bulk :=
   bulk_of fmin fmax (f2 s) (map Some (e_2d s)) (a1_2d s) (b1_2d s) (a2_2d s) (b2_2d s).
 
 (* ---------------- rotating / mirroring the sea ---------------- *)
-(* uniform grid, possibly stored modulo 360: theta_j = t0 + j*dl (mod 360), N*dl = 360 *)
-Definition ugrid (t0 dl : R) (th : list R) : Prop :=
-  INR (length th) * dl = 360 /\
-  forall j, (j < length th)%nat -> cong360 (nth j th 0) (t0 + INR j * dl).
-
 (* numpy.roll(E, k, axis=direction): the density that was at theta_j is now at theta_{j+k} *)
 Definition rot2d {M} (k : nat) (s : spec2d M) : spec2d M :=
   mk2d M (f2 s) (th2 s) (map (rotr k) (E2 s)) (meta2 s).
@@ -134,3 +129,32 @@ Definition mirror2d {M} (s : spec2d M) : spec2d M :=
 (* rotation of a moment pair by an angle given in degrees *)
 Definition rotc (al a b : R) : R := a * cos1 al - b * sin1 al.
 Definition rots (al a b : R) : R := a * sin1 al + b * cos1 al.
+
+(* ---------------- vocabulary of the rotation / mirror statements ---------------- *)
+(* the relation between the moment pair before and after a rotation by al degrees
+   (None = NaN: the frequency bin carries no energy) *)
+Definition rot_rel (al : R) (a b a' b' : option R) : Prop :=
+  match a, b with
+  | Some x, Some y => a' = Some (rotc al x y) /\ b' = Some (rots al x y)
+  | None, None => a' = None /\ b' = None
+  | _, _ => False
+  end.
+
+Definition mirror_rel (a b a' b' : option R) : Prop :=
+  match a, b with
+  | Some x, Some y => a' = Some x /\ b' = Some (- y)
+  | None, None => a' = None /\ b' = None
+  | _, _ => False
+  end.
+
+(* equal unit vectors: the vector form of "congruent modulo 360" *)
+Definition same_dir (d d' : R) : Prop := cos1 d' = cos1 d /\ sin1 d' = sin1 d.
+
+(* a defined, non-zero moment pair: the direction exists before and after and is shifted by al *)
+Definition dir_shift (al : R) (a b a' b' : option R) : Prop :=
+  forall x y, a = Some x -> b = Some y -> x <> 0 \/ y <> 0 ->
+  exists d d', odir a b = Some d /\ odir a' b' = Some d' /\ same_dir (d + al) d'.
+
+Definition dir_negated (a b a' b' : option R) : Prop :=
+  forall x y, a = Some x -> b = Some y -> x <> 0 \/ y <> 0 ->
+  exists d d', odir a b = Some d /\ odir a' b' = Some d' /\ same_dir (- d) d'.
